@@ -154,6 +154,11 @@ pub fn guard<T>(f: impl FnOnce() -> T) -> Result<T, PanicInfo> {
         Err(_) => {
             let (loc, msg) = LAST_PANIC.with(|p| p.borrow_mut().take()).unwrap_or(("?".into(), "?".into()));
             let loc = loc.strip_prefix("/repo/").unwrap_or(&loc).to_string();
+            // dependencies: keep `crate-version/src/file.rs:line`, drop the registry directory
+            let loc = match loc.find("/registry/src/") {
+                Some(i) => loc[i + 14..].splitn(2, '/').nth(1).unwrap_or(&loc).to_string(),
+                None => loc,
+            };
             Err(PanicInfo { loc, msg })
         }
     }
@@ -211,6 +216,7 @@ pub fn shrink(check: &dyn Check, index: u64, master: u64, tier: Tier, first: Run
             return false;
         }
         *tries += 1;
+        tick();
         let o = exec(check, index, master, tier, false, Some(wt), Some(ft), Value::Null);
         if same_violation(&target, &o) {
             *best = o;
